@@ -32,7 +32,8 @@ typedef struct {
     uint16_t len[MAX_DGRAMS];
     uint8_t  data[MAX_DGRAMS][DGRAM_MAX];
     char     tmpl[64];                   /* template / mutation name (for keys)   */
-    int      repeat;                     /* soak: the whole script is fed 1 + repeat times */
+    int      repeat;                     /* soak: the first rep_n datagrams (all when 0) are fed 1 + repeat times, then the rest once */
+    int      rep_n;
     uint8_t  expect_p1[MAX_DGRAMS];      /* 1 + number of output units (frames) this datagram must produce; 0: not judged */
 } seq_t;
 
@@ -69,8 +70,9 @@ static void on_vtalrm(int sig)
 static int feed_next(void)
 {
     if (g_rounds_left < 0) g_rounds_left = g_seq->repeat;
-    if (g_next >= g_seq->n && g_rounds_left > 0 && g_seq->n > 0) { g_rounds_left--; g_next = 0; }
-    if (g_next < g_seq->n) {
+    int rn = (g_seq->repeat && g_seq->rep_n > 0 && g_seq->rep_n < g_seq->n) ? g_seq->rep_n : g_seq->n;
+    if (g_next >= rn && g_rounds_left > 0 && g_seq->n > 0) { g_rounds_left--; g_next = 0; }
+    if (g_next < (g_rounds_left > 0 ? rn : g_seq->n)) {
         g_fed++;
         g_cur_dgram = g_next;
         if (send(g_feed_fd, g_seq->data[g_next], g_seq->len[g_next], 0) < 0) _exit(EX_HARNESS);
